@@ -35,12 +35,26 @@ def main():
     ctx = common.Ctx(a.pid, a.tier, seed)
     if a.replay:
         return mod.replay(ctx, a.replay)
+    # a check must not hang with the code under test: an overall time budget, after which the run is reported as broken
+    budget = int(os.environ.get('VERIF_BUDGET_S', '5400' if a.tier == 'thorough' else '900'))
+
+    class OverBudget(BaseException):
+        pass
+
+    def on_alarm(signum, frame):
+        raise OverBudget()
+    signal.signal(signal.SIGALRM, on_alarm)
+    signal.alarm(budget)
     try:
         mod.run(ctx)
+    except OverBudget:
+        ctx.corr_broken.append(('time-budget', {'error': 'the check did not finish within %d s: the code under test (or the machinery) loops or blocks' % budget}))
     except Exception:
         # a crash of the machinery is reported as a broken check, never as a pass
         traceback.print_exc()
         ctx.corr_broken.append(('harness-crash', {'traceback': traceback.format_exc()[-3000:]}))
+    finally:
+        signal.alarm(0)
     return ctx.finish(**getattr(mod, 'FINISH', {}))
 
 
